@@ -5,6 +5,8 @@ use crate::ctx::Ctx;
 pub mod c01;
 pub mod c02;
 pub mod c03;
+pub mod c04;
+pub mod c05;
 pub mod c11;
 pub mod c16;
 pub mod c19;
@@ -12,7 +14,7 @@ pub mod common;
 pub mod c20;
 
 pub fn implemented(id: &str) -> bool {
-    matches!(id, "C01" | "C02" | "C03" | "C11" | "C16" | "C19" | "C20")
+    matches!(id, "C01" | "C02" | "C03" | "C04" | "C05" | "C11" | "C16" | "C19" | "C20")
 }
 
 pub fn run(id: &str, ctx: &mut Ctx) {
@@ -20,6 +22,8 @@ pub fn run(id: &str, ctx: &mut Ctx) {
         "C01" => c01::run(ctx),
         "C02" => c02::run(ctx),
         "C03" => c03::run(ctx),
+        "C04" => c04::run(ctx),
+        "C05" => c05::run(ctx),
         "C11" => c11::run(ctx),
         "C16" => c16::run(ctx),
         "C19" => c19::run(ctx),
